@@ -529,6 +529,7 @@ type Contract struct {
 	Modifies []string // heap names / ghost names / "nothing" ; nil means unspecified (=> everything for callers if trusted)
 	ModSet   bool
 	NoPanic  bool
+	NoPanicKinds []string // when non-empty: the only kinds of panic that "nopanic" turns into obligations
 	LockOnly bool // synthetic lock-discipline sweep contract (C25): only guard obligations and lock preconditions count
 	SplitRet bool // "splitreturns": one postcondition obligation per return point (as done automatically for > 6 returns)
 	Trusted  bool // contract assumed, body not verified
@@ -837,7 +838,10 @@ func ParseContractText(pkg, file, text string) (*ContractFile, error) {
 				}
 			}
 		case "nopanic":
+			// "nopanic" or "nopanic kind kind ...": only the listed kinds of panic are obligations (the others are pruned as
+			// under partial correctness); kinds: nil index slice bigdivzero divzero nilmap typeassert explicit ...
 			cur.NoPanic = true
+			cur.NoPanicKinds = strings.Fields(rest)
 		case "splitreturns":
 			cur.SplitRet = true
 		case "trusted":
